@@ -29,12 +29,19 @@ type famT struct {
 	MTB   uint32 `json:"max_traceable_blocks"`
 	Multi bool   `json:"multi,omitempty"`
 	Pad   int    `json:"pad,omitempty"`
+	// NoSRIH: StateRootInHeader off. Only the storage-based (items) mode exists
+	// then (P2PStateExchangeExtensions demand state roots in headers); the
+	// syncing node has no header to check the root of the state source against.
+	NoSRIH bool `json:"no_state_root_in_header,omitempty"`
 }
+
+func (f famT) srih() bool { return !f.NoSRIH }
 
 func (f famT) family() chainx.Family {
 	iv := f.I
-	return chainx.Family{Name: f.Name, Multi: f.Multi, SRIH: true, MTB: f.MTB, Extra: func(c *config.Blockchain) {
-		c.P2PStateExchangeExtensions = true
+	p2p := f.srih()
+	return chainx.Family{Name: f.Name, Multi: f.Multi, SRIH: f.srih(), MTB: f.MTB, Extra: func(c *config.Blockchain) {
+		c.P2PStateExchangeExtensions = p2p
 		c.StateSyncInterval = iv
 	}}
 }
@@ -89,6 +96,7 @@ type srcT struct {
 	alien  map[uint32][][]byte // per sync point: valid nodes of the trie at another height, absent from this one
 	maxID  int32
 	hashes []util.Uint160
+	roots  []util.Uint256 // height -> state root of the source (ext_init: foreign roots for InitContractStorageSync)
 }
 
 func pubs(p keys.PublicKeys) string {
@@ -379,24 +387,48 @@ func buildSource(f famT, names []string, points []uint32) (*srcT, error) {
 		s.mptd = append(s.mptd, md)
 	}
 	mod := src.BC.GetStateSyncModule()
+	// rootAt: the state root a peer / state source announces for height p (with
+	// state roots in headers it is what header p+1 commits to)
+	rootAt := func(p uint32) (util.Uint256, error) {
+		if f.NoSRIH {
+			sr, err := src.BC.GetStateRoot(p)
+			if err != nil {
+				return util.Uint256{}, err
+			}
+			return sr.Root, nil
+		}
+		hdr, err := src.BC.GetHeader(src.BC.GetHeaderHash(p + 1))
+		if err != nil {
+			return util.Uint256{}, err
+		}
+		return hdr.PrevStateRoot, nil
+	}
+	s.roots = make([]util.Uint256, s.tip+1)
+	for p := uint32(0); p <= s.tip; p++ {
+		sr, err := src.BC.GetStateRoot(p)
+		if err != nil {
+			return nil, err
+		}
+		s.roots[p] = sr.Root
+	}
 	all := map[uint32]map[util.Uint256][]byte{}
 	for p := uint32(1); p < s.tip; p++ {
-		hdr, err := src.BC.GetHeader(src.BC.GetHeaderHash(p + 1))
+		rt, err := rootAt(p)
 		if err != nil {
 			return nil, err
 		}
 		m := map[util.Uint256][]byte{}
-		if err := mod.Traverse(hdr.PrevStateRoot, func(n mpt.Node, b []byte) bool { m[n.Hash()] = b; return false }); err != nil {
+		if err := mod.Traverse(rt, func(n mpt.Node, b []byte) bool { m[n.Hash()] = b; return false }); err != nil {
 			return nil, err
 		}
 		all[p] = m
 	}
 	for _, p := range points {
-		hdr, err := src.BC.GetHeader(src.BC.GetHeaderHash(p + 1))
+		rt, err := rootAt(p)
 		if err != nil {
 			return nil, err
 		}
-		t := &trieT{Root: hdr.PrevStateRoot, Nodes: map[util.Uint256][]byte{}, Kids: map[util.Uint256][]util.Uint256{}, Pre: map[util.Uint256]int{}, Sub: map[util.Uint256][]util.Uint256{}}
+		t := &trieT{Root: rt, Nodes: map[util.Uint256][]byte{}, Kids: map[util.Uint256][]util.Uint256{}, Pre: map[util.Uint256]int{}, Sub: map[util.Uint256][]util.Uint256{}}
 		seenTwice := map[util.Uint256]int{}
 		err = mod.Traverse(t.Root, func(n mpt.Node, b []byte) bool {
 			hh := n.Hash()
@@ -501,7 +533,7 @@ func buildSource(f famT, names []string, points []uint32) (*srcT, error) {
 }
 
 func (s *srcT) block(h uint32) *block.Block {
-	b, err := chainx.DecodeBlock(s.blocks[h-1], true)
+	b, err := chainx.DecodeBlock(s.blocks[h-1], s.fam.srih())
 	if err != nil {
 		panic(err)
 	}
